@@ -68,7 +68,7 @@ func genCandidate(pos, try int) (string, int) {
 
 type wopts struct {
 	Mask      string // "nil" | "{}" | "a" | "b" | "a,b" | "zz"
-	Reset     string // "" | "b"
+	Reset     string // "" | "b" | "zz" (a field the message does not have)
 	Expect    string // "" | "value:<a>/<b>" | "check-pass" | "check-fail"
 	Expect2   string // a second precondition given after the first one (same forms): a write needs BOTH to hold
 	Before    bool   // InterceptBefore: value.a += old.a + 10
@@ -180,8 +180,11 @@ func (o wopts) build(c *cb) []resource.WriteOption {
 		}
 		w = append(w, resource.WithUpdatePaths(ps...))
 	}
-	if o.Reset == "b" {
+	switch o.Reset {
+	case "b":
 		w = append(w, resource.WithResetPaths("default_string"))
+	case "zz": // a reset mask is validated whether or not the write has an update mask
+		w = append(w, resource.WithResetPaths("no_such_field"))
 	}
 	for _, ex := range []string{o.Expect, o.Expect2} {
 		switch {
@@ -270,6 +273,9 @@ func (m *model) validate(o wopts) codes.Code {
 				return codes.InvalidArgument
 			}
 		}
+	}
+	if o.Reset == "zz" {
+		return codes.Internal // the write's own reset mask is the caller's programming error, not the client's
 	}
 	return codes.OK
 }
@@ -708,7 +714,7 @@ func optionCombos(thorough, collection, del bool) []wopts {
 	}
 	dims := []dim{
 		{"mask", []func(*wopts){func(o *wopts) { o.Mask = "{}" }, func(o *wopts) { o.Mask = "a" }, func(o *wopts) { o.Mask = "b" }, func(o *wopts) { o.Mask = "a,b" }, func(o *wopts) { o.Mask = "zz" }}},
-		{"reset", []func(*wopts){func(o *wopts) { o.Reset = "b" }}},
+		{"reset", []func(*wopts){func(o *wopts) { o.Reset = "b" }, func(o *wopts) { o.Reset = "zz" }}},
 		{"expect", []func(*wopts){func(o *wopts) { o.Expect = "value:0/" }, func(o *wopts) { o.Expect = "value:1/x" }, func(o *wopts) { o.Expect = "check-pass" }, func(o *wopts) { o.Expect = "check-fail" }}},
 		{"and-expect", []func(*wopts){func(o *wopts) { o.Expect2 = "value:0/" }, func(o *wopts) { o.Expect2 = "value:1/x" }, func(o *wopts) { o.Expect2 = "check-pass" }}},
 		{"before", []func(*wopts){func(o *wopts) { o.Before = true }}},
